@@ -193,9 +193,11 @@ def run_partial(res, c, d, base, tier):
                 j = MC[len(calls)]
                 calls.append(j)
                 return (curve(j), curve(j), [P[j], Q[j]], 'stub', ['p', 'q'])
+            caller_channels = list(mef_channels)          # the caller's own list objects, changed after the call below
+            caller_values = [list(v) for v in mef_values]
             try:
                 tf = FlowCal.mef.get_transform_fxn(
-                    beads, mef_values if len(MC) > 1 else mef_values[0], mef_channels if len(MC) > 1 else mef_channels[0],
+                    beads, caller_values if len(MC) > 1 else caller_values[0], caller_channels if len(MC) > 1 else caller_channels[0],
                     clustering_fxn=lambda data, n_clusters, **kw: labels,
                     clustering_channels=[0, 1],
                     selection_fxn=None, fitting_fxn=fit)
@@ -203,9 +205,16 @@ def run_partial(res, c, d, base, tier):
                 res.violation('partial:build:%s' % type(e).__name__, 'get_transform_fxn(mef_channels=%r) with stub stages raised %s: %s' % (
                     mef_channels, type(e).__name__, e), dict(c))
                 continue
-            for req, cols in requests('quick'):
-                rc = list(MC) if cols is None else cols
-                unc = [j for j in rc if j not in MC]
-                judge(res, 'partial', 'transform from get_transform_fxn(mef_channels=%r) called with channels=%r' % (mef_channels, req),
-                      d, base, lambda: tf(d, req), MC, rc, dict(c), 'channel(s) %r were not calibrated' % unc if unc else None)
+            for phase in ('fresh', 'after the caller changed its lists'):
+                for req, cols in requests('quick'):
+                    rc = list(MC) if cols is None else cols
+                    unc = [j for j in rc if j not in MC]
+                    judge(res, 'partial' if phase == 'fresh' else 'partial-aliasing',
+                          'transform from get_transform_fxn(mef_channels=%r) called with channels=%r (%s)' % (mef_channels, req, phase),
+                          d, base, lambda: tf(d, req), MC, rc, dict(c), 'channel(s) %r were not calibrated' % unc if unc else None)
+                # the returned function must have fixed its curve list and channels: later changes of the caller's lists are invisible
+                caller_channels.reverse()
+                caller_channels.append('CH4' if 3 not in MC else 'CH1')
+                for v in caller_values:
+                    v[:] = [7.0] * len(v)
     res.sample({'via': 'mef.get_transform_fxn partial', 'mef_channels': 'all ordered subsets of size <= 3'})
